@@ -7,12 +7,12 @@ func init() {
 		{Pkg: "encoding/hex", Func: "EncodeToString", Oracle: true},
 		{Pkg: ".../verifier/crl", Func: "(*FileCache).fileName"},
 		{Pkg: "os", Type: "File", Opaque: true},
-		{Pkg: "os", Func: "CreateTemp", Oracle: true},
-		{Pkg: "os", Func: "(*File).Write", Oracle: true},
-		{Pkg: "os", Func: "(*File).Close", Oracle: true},
+		{Pkg: "os", Func: "CreateTemp", Oracle: true, Effect: true},
+		{Pkg: "os", Func: "(*File).Write", Oracle: true, Effect: true},
+		{Pkg: "os", Func: "(*File).Close", Oracle: true, Effect: true},
 		{Pkg: "os", Func: "(*File).Name", Oracle: true},
-		{Pkg: "os", Func: "Rename", Oracle: true},
-		{Pkg: "os", Func: "Remove", Oracle: true},
+		{Pkg: "os", Func: "Rename", Oracle: true, Effect: true},
+		{Pkg: "os", Func: "Remove", Oracle: true, Effect: true},
 		{Pkg: ".../internal/file", Func: "verifHook", Oracle: true, Drop: true},
 		{Pkg: ".../internal/file", Func: "WriteFile"},
 		{Pkg: "os", Func: "IsPathSeparator"},
